@@ -124,6 +124,12 @@ impl Law {
     pub fn is_ok(&self) -> bool {
         self.fail.is_none()
     }
+    /// take over another law's first failure, if this one has none yet
+    pub fn merge(&mut self, other: &Law) {
+        if let (None, Some(w)) = (&self.fail, &other.fail) {
+            self.fail = Some(w.clone());
+        }
+    }
     pub fn render(&self) -> String {
         match &self.fail {
             None => "ok".to_string(),
